@@ -113,7 +113,12 @@ RULE = ('Seeded histories of <= ~12 operations over debtags.DB: read of generate
 ASSUMPTIONS = [
     'vp.models.tagrel.Rel (a set of pairs + upper bounds for keys with empty sets) is the reference relation',
     'whether a package without tags (or, after reverse, a tag without packages) remains a key is left open: '
-    'observed keys must lie between dom/ran of the relation and the model upper bound, extra keys must map to the empty set',
+    'observed keys must lie between dom/ran of the relation and the model upper bound, extra keys must map to the empty set; '
+    'EXCEPT for a collection derived by choosing packages (filter_packages*, filter_packages_tags*, choose_packages*): its tags '
+    'are exactly the tags of the chosen pairs - a tag none of the kept packages carries is not a tag of the result (the '
+    'statement: tag counts agree with a relation holding the same pairs; nothing upstream can justify such a key there)',
+    'a read line with a stray separator ("p: a, , b", "p: , a") carries the EMPTY tag name, a name like any other; as a package '
+    'name (after reverse) it meets the known insert defect the same way longer names do (set(("")) is empty)',
     'facet of a tag "f::x" is "f" (independent rule); the facet NAME the library gives a tag without "::" is not part of '
     'the property - it is learned from the library on a one-pair collection and only the consistency of the whole relation under that per-tag map is demanded',
     'domain guards: read input has distinct package names and no blank lines; inserted names are fresh '
@@ -263,7 +268,7 @@ def setup(ctx):
         if not (dm or de):
             return
         new_tags = sorted(t for t in tags if t not in before_keys)
-        known = bool(isinstance(pkg, str) and len(pkg) > 1 and new_tags
+        known = bool(isinstance(pkg, str) and len(pkg) != 1 and new_tags      # the empty name too: set(('')) is empty
                      and all(self.rdb.get(t) == set(pkg) for t in new_tags)
                      and dm <= {(pkg, t) for t in new_tags}
                      and de <= {(c, t) for c in set(pkg) for t in new_tags})
@@ -384,7 +389,9 @@ def entries_ok(entries):
     for e in entries:
         if not e['pkgs']:
             return False
-        for n in list(e['pkgs']) + list(e['tags']):
+        for i, n in enumerate(list(e['pkgs']) + list(e['tags'])):
+            if n == '' and len(e['pkgs']) <= i < len(e['pkgs']) + len(e['tags']) - 1:
+                continue                    # the EMPTY tag name: what a stray separator ("p: a, , b", "p: , a") reads as
             if (not n) or n != n.strip() or ', ' in n or any(c.isspace() for c in n):
                 return False
         for p in e['pkgs']:
@@ -530,7 +537,7 @@ def explain_known(recs, inv, op, ins_pkg, new_tags, k8_first):
                 cands = [x for x in cands if x in k8_first.get(t, ())]
         hit = None
         for q in cands:
-            if not (isinstance(q, str) and len(q) > 1):
+            if not (isinstance(q, str) and len(q) != 1):       # the empty name too: set(("")) is empty
                 continue
             G = corrupt(E, q)
             if sets and all(isinstance(rec[3], (set, frozenset)) and set(rec[3]) == G for rec in sets):
@@ -702,6 +709,8 @@ def run_case(ctx, case):
             if not entries_ok(op['entries']):
                 _skip(ctx, 'read-input-outside-domain')
                 continue
+            if any('' in e['tags'] for e in op['entries']):
+                ctx.count('read:line-with-empty-tag-name')
         elif kind == 'query':
             if not op.get('names') or not all(isinstance(n, str) and n for n in op['names']):
                 _skip(ctx, 'query-without-names')
@@ -1178,6 +1187,8 @@ def gen_read(r, state, single, pool, avoid=(), nlines=None, max_tags=None):
         if max_tags is not None:
             ntags = min(ntags, max_tags)
         tags = r.sample(pool, min(len(pool), ntags))
+        if tags and r.random() < 0.07:
+            tags.insert(r.randrange(len(tags)), '')     # stray separator: the empty tag name (never in last position)
         e = {'pkgs': pkgs, 'tags': tags}
         if tags:
             sep = r.choice([': ', ': ', ': ', ':  ', ':\t'])
@@ -1776,7 +1787,7 @@ _OPS_Q = {'dpair:formed/choose_packages/keeps-everything': 250, 'dpair:formed/ch
           'pair:op:query': 7000, 'pair:op:read': 2800, 'pair:op:reverse_view': 18000, 'q:absent-name-queries': 207500,
           'q:present-name-queries': 31000, 'q:with-live-derived-partner': 2100, 'q:with-live-partner': 7000,
           'view-start:both-empty': 4300, 'view-start:general': 7200, 'view-start:no-packages': 1500,
-          'view-start:no-tags': 2100, 'view-start:single-package': 2700}
+          'view-start:no-tags': 2100, 'view-start:single-package': 2700, 'read:line-with-empty-tag-name': 5500}
 _OPS_T = dict((k, v * 40) for k, v in _OPS_Q.items())
 FLOORS = {'quick': {'nontrivial': 19500, 'monitors': {'M': 210000, 'M.pair': 50000, 'M.dpair': 22000, 'M.query': 310000},
                     'counters': _OPS_Q},
@@ -1812,7 +1823,7 @@ LEVEL_NOTE = ('Trusted: CPython, vp.models.tagrel.Rel, the generator\'s renderin
               'sets an insert adds to (results of filter_tags, copy and reverse_copy - which share those sets on the unchanged tree - are '
               'never mutated next to a live parent), what the other object of a pair shows after a read() beyond "old relation or swapped new relation", '
               'duplicate/re-inserted package names, blank input lines, the facet name of a tag without "::", whether keys with empty sets '
-              'survive a derivation, iteration order.')
+              'survive a derivation other than the package-choosing ones, iteration order.')
 TECHNIQUE = ('runtime monitoring: boundary oracle M (reference relation vs. all DB query methods after every step of a seeded operation '
              'history, on the object operated on and on its live reverse() view or live parent / derived collection; before/after snapshots around query calls) decides; K8 '
              'representation contract (db/rdb mutually inverse) attached to DB.insert/read and every DB-returning method, and evaluated on '
